@@ -1,0 +1,6 @@
+//go:build !verif
+
+package submission
+
+// verifTrace is a no-op unless built with the "verif" tag.
+func verifTrace(_ *safeSubmissionState, _ string, _ string, _ bool) {}
